@@ -129,7 +129,7 @@ def run_history_impl(hist, arch):
 
 
 def enc_history(enc, hist, pats):
-    from pytestarch.utils.partial_match_to_regex_converter import convert_partial_match_to_regex as conv
+    conv = rules.partial_match_converter()
     out = []
     code = {"modules_that": 0, "are_named": 1, "are_sub_modules_of": 2, "have_name_matching": 3, "have_name_containing": 4,
             "should": 5, "should_only": 6, "should_not": 7, "import_modules_that": 8, "be_imported_by_modules_that": 9,
